@@ -347,3 +347,48 @@ def walk_local(node):
         first = False
         yield n
         todo.extend(reversed(list(ast.iter_child_nodes(n))))
+
+
+def stale_loop_uses(func_node):
+    """uses of a for-loop's target variable after the loop has ended (the loop has no `break`, so the variable
+    holds the LAST element, whatever was meant): [(name node, loop)].  A search loop (`break` inside) is not reported."""
+    out = []
+    for lp in walk_local(func_node):
+        if not isinstance(lp, ast.For):
+            continue
+        if any(isinstance(x, ast.Break) for s in lp.body for x in ast.walk(s)):
+            continue
+        targets = {n.id for n in ast.walk(lp.target) if isinstance(n, ast.Name)}
+        par = getattr(lp, "_parent", None)
+        blk = None
+        for b in ("body", "orelse", "finalbody"):
+            if lp in getattr(par, b, []):
+                blk = getattr(par, b)
+        if blk is None:
+            continue
+        live = set(targets)
+        for st in blk[blk.index(lp) + 1:]:
+            # a later loop / assignment that rebinds the name ends the stale window for it
+            for x in ast.walk(st):
+                if isinstance(x, ast.Name) and x.id in live:
+                    if isinstance(x.ctx, ast.Store):
+                        live.discard(x.id)
+                    elif isinstance(x.ctx, ast.Load):
+                        # a comprehension's own variable of the same name is a different binding
+                        own = False
+                        q = getattr(x, "_parent", None)
+                        while q is not None and q is not st:
+                            if isinstance(q, (ast.ListComp, ast.SetComp, ast.GeneratorExp, ast.DictComp)) and any(
+                                    isinstance(t, ast.Name) and t.id == x.id for g in q.generators for t in ast.walk(g.target)):
+                                own = True
+                            q = getattr(q, "_parent", None)
+                        if own:
+                            continue
+                        # is it rebound earlier in this very statement (e.g. `for lib in ...: use(lib)`)?
+                        rebound = any(isinstance(y, ast.Name) and y.id == x.id and isinstance(y.ctx, ast.Store)
+                                      and (y.lineno, y.col_offset) < (x.lineno, x.col_offset) for y in ast.walk(st))
+                        if not rebound:
+                            out.append((x, lp))
+            if not live:
+                break
+    return out
